@@ -757,11 +757,8 @@ func dontWaitSite(cs ssa.CallInstruction) bool {
 // defaultOfOr: v is cmp.Or(configured…, K) — the first non-zero argument — with a constant
 // last argument: K is the default that replaces a zero configuration.
 func defaultOfOr(w *World, v ssa.Value) (int64, bool) {
-	call, ok := stripIface(w.resolveLoad(v)).(*ssa.Call)
-	if !ok || stdCallee(&call.Call) != "cmp.Or" || len(call.Call.Args) != 1 {
-		return 0, false
-	}
-	els := variadicElems(call.Call.Args[0])
+	call, _ := stripIface(w.resolveLoad(v)).(*ssa.Call)
+	els := orArgs(call)
 	if len(els) < 2 {
 		return 0, false
 	}
